@@ -5,6 +5,8 @@ use crate::rng::Rng;
 /// characters, an astral character, a character outside every generated range.
 pub const ALPHA: &[char] = &[
     'a', 'b', 'c', 'd', '1', '2', ' ', '\u{3000}', 'あ', '漢', 'é', '😀', 'z',
+    // first UTF-8 byte 0xEF (the first byte of a byte-order mark)
+    'Ｊ', 'ｱ',
 ];
 
 #[derive(Clone, Debug)]
@@ -90,6 +92,16 @@ pub fn gen_surface(rng: &mut Rng, allow_space: bool) -> String {
 }
 
 fn feature(rng: &mut Rng, i: usize) -> String {
+    let f = feature_core(rng, i);
+    // features ending in white space (a blank-symbol entry whose last column is the blank itself)
+    if rng.chance(1, 8) {
+        format!("{f}{}", *rng.pick(&[" ", "\u{3000}", "\t", ",\u{3000}", "  "]))
+    } else {
+        f
+    }
+}
+
+fn feature_core(rng: &mut Rng, i: usize) -> String {
     match rng.below(4) {
         0 => format!("f{i}"),
         1 => format!("f{i},名詞,*"),
